@@ -216,6 +216,43 @@ fn chains(ctx: &Ctx) -> Vec<(Case, bool)> {
 
 // Loops whose body changes the iterated container, the loop variable, or the
 // condition's inputs.
+// The snapshot is taken whatever expression names the iterable: every way of
+// writing "the list xs" / "the object ob" x every way of changing it from
+// the body; oracle: the reference interpreter.
+fn iterable_form_cases(ctx: &Ctx) -> Vec<(Case, bool)> {
+    let mut out = vec![];
+    let pre = "xs := [1, 2, 3, 4]\nob := {\"a\": 1, \"b\": 2, \"c\": 3}\nbox := {\"items\": xs, \"props\": ob, \"all\": fn () {\n    return this.items\n}, \"every\": fn () {\n    return this.props\n}}\nfn same(v) {\n    return v\n}\nfn give() {\n    return xs\n}\nfn poke(i, v) {\n    xs[i] = v\n}\nholder := [xs, ob]\n";
+    let list_forms = ["xs", "same(xs)", "give()", "box.all()", "box.items", "box[\"items\"]", "holder[0]", "[xs][0]", "(xs)", "same(same(xs))", "box[\"all\"]()", "(fn () { return xs; })()", "{\"k\": xs}.k"];
+    let list_bodies = ["xs[3] = 40", "xs[i + 1 - (i / 3)] = 50 + i", "poke(3, 60)", "box.items[2] = 70", "ys := xs\n    ys[3] = 80", "xs[2:4] = [90, 91]", "holder[0][3] = 95", "same(xs)[3] = 97"];
+    for f in list_forms {
+        for b in list_bodies {
+            let src = format!("{pre}seen := []\nfor [i, v] in {f} {{\n    {b}\n    seen += [v]\n}}\nprint(seen)\nprint(xs)\n");
+            out.push((src, format!("for over {f}, body: {}", b.replace('\n', ";"))));
+        }
+    }
+    let obj_forms = ["ob", "same(ob)", "box.every()", "box.props", "holder[1]", "{\"k\": ob}.k"];
+    let obj_bodies = ["ob.c = 30", "ob[\"d\"] = 4", "box.props.c += 100", "ob[k + \"x\"] = v", "holder[1].b = 20"];
+    for f in obj_forms {
+        for b in obj_bodies {
+            let src = format!("{pre}seen := []\nfor [k, v] in {f} {{\n    {b}\n    seen += [[k, v]]\n}}\nprint(seen)\nprint(ob)\n");
+            out.push((src, format!("for over {f}, body: {b}")));
+        }
+    }
+    let mut cases = vec![];
+    for (src, note) in out {
+        let prog = match crate::util::model_from_source(&src) { Ok(p) => p, Err(_) => { ctx.exclude("iterable-form program not readable without the in-process back-end"); continue; } };
+        let rr = interp::run(&prog);
+        let e = match &rr.outcome {
+            interp::Outcome::Ok => Expect::ok(rr.out.clone()),
+            interp::Outcome::Err(_) => Expect::err(rr.out.clone()),
+            interp::Outcome::Discard(w) => { ctx.exclude(w); continue; },
+        };
+        ctx.label("snapshot: iterable written as an expression");
+        cases.push((Case{property: "C07".into(), kind: "iterable_form".into(), srcs: vec![src.into_bytes()], pred: Pred::Expect(e), note}, true));
+    }
+    cases
+}
+
 fn snapshot_cases(ctx: &Ctx) -> Vec<(Case, bool)> {
     let mut out = vec![];
     let srcs: Vec<(&str, Vec<Stmt>)> = vec![
@@ -436,5 +473,6 @@ pub fn run(ctx: &Ctx) {
     cases.extend(chains(ctx));
     cases.extend(snapshot_cases(ctx));
     cases.extend(condition_cases(ctx));
+    cases.extend(iterable_form_cases(ctx));
     ctx.judge_all(cases, Via::Cli, None);
 }
